@@ -9,6 +9,22 @@ TARGET = os.path.join(BUILD, "target")
 GUARD = "brotli_verif"
 NCPU = 16
 
+ALT = None
+if os.path.abspath(REPO) != "/repo":
+    # seeded-change / mutation runs against a private copy of the repository: everything that is
+    # rebuilt from the source (generated Coq files, .vo, extracted models, harness binaries) lives
+    # in a private build area so that concurrent checks against /repo are never disturbed
+    ALT = os.path.join(BUILD, "alt", hashlib.sha1(os.path.abspath(REPO).encode()).hexdigest()[:10])
+    os.makedirs(ALT, exist_ok=True)
+    subprocess.run(["rsync", "-a", "--delete", os.path.join(ROOT, "coq") + "/", os.path.join(ALT, "coq") + "/"], check=False)
+    COQ = os.path.join(ALT, "coq")
+    BUILD = os.path.join(ALT, "build")
+    TARGET = os.path.join(BUILD, "target")
+    os.makedirs(BUILD, exist_ok=True)
+    # start from the extracted models that are already built (they are rebuilt when sources change)
+    if not os.path.exists(os.path.join(BUILD, "ocaml")) and os.path.exists(os.path.join(ROOT, "build", "ocaml")):
+        subprocess.run(["rsync", "-a", os.path.join(ROOT, "build", "ocaml") + "/", os.path.join(BUILD, "ocaml") + "/"], check=False)
+
 sys.path.insert(0, os.path.join(ROOT, "tools"))
 import gen_tables  # noqa: E402
 
@@ -216,28 +232,26 @@ def harness_build(binname, profile="dev", timeout=1500, extra_cfg=""):
     """build one harness binary against REPO's current working tree.  REPO is /repo unless
     VERIF_REPO names another tree (seeded-change and mutation runs use a private copy so that
     /repo itself is never disturbed): then a copy of the harness crate pointing at that tree is
-    built into its own target directory."""
+    built into the private build area."""
     import shutil
     hd = os.path.join(ROOT, "harness")
-    tgt = TARGET
     lockname = "cargo-" + profile
-    if os.path.abspath(REPO) != "/repo":
-        tag = hashlib.sha1(os.path.abspath(REPO).encode()).hexdigest()[:10]
-        dst = os.path.join(BUILD, "alt", tag, "harness")
-        tgt = os.path.join(BUILD, "alt", tag, "target")
+    if ALT:
+        dst = os.path.join(ALT, "harness")
         os.makedirs(os.path.join(dst, "src", "bin"), exist_ok=True)
         os.makedirs(os.path.join(dst, ".cargo"), exist_ok=True)
-        open(os.path.join(dst, "Cargo.toml"), "w").write(
+        def put(path, text):
+            if not os.path.exists(path) or open(path).read() != text:
+                open(path, "w").write(text)
+        put(os.path.join(dst, "Cargo.toml"),
             open(os.path.join(hd, "Cargo.toml")).read().replace('path = "/repo"', 'path = "%s"' % os.path.abspath(REPO)))
-        open(os.path.join(dst, ".cargo", "config.toml"), "w").write('[net]\noffline = true\n[build]\ntarget-dir = "%s"\n' % tgt)
-        for f in os.listdir(os.path.join(hd, "src")):
-            pth = os.path.join(hd, "src", f)
-            if os.path.isfile(pth):
-                shutil.copy(pth, os.path.join(dst, "src", f))
-        for f in os.listdir(os.path.join(hd, "src", "bin")):
-            shutil.copy(os.path.join(hd, "src", "bin", f), os.path.join(dst, "src", "bin", f))
+        put(os.path.join(dst, ".cargo", "config.toml"), '[net]\noffline = true\n[build]\ntarget-dir = "%s"\n' % TARGET)
+        for sub in ("src", os.path.join("src", "bin")):
+            for f in os.listdir(os.path.join(hd, sub)):
+                pth = os.path.join(hd, sub, f)
+                if os.path.isfile(pth):
+                    put(os.path.join(dst, sub, f), open(pth).read())
         hd = dst
-        lockname = "cargo-alt-" + tag + "-" + profile
     lock = os.path.join(hd, "Cargo.lock")
     if not os.path.exists(lock):
         base = open(os.path.join(REPO, "Cargo.lock")).read()
@@ -247,7 +261,7 @@ def harness_build(binname, profile="dev", timeout=1500, extra_cfg=""):
     with Lock(lockname):
         rc, out = sh("timeout %d cargo build --offline %s --bin %s 2>&1" % (timeout, prof, binname), cwd=hd,
                      env={"RUSTFLAGS": flags.strip()}, timeout=timeout + 30)
-    exe = os.path.join(tgt, "debug" if profile == "dev" else "release", binname)
+    exe = os.path.join(TARGET, "debug" if profile == "dev" else "release", binname)
     return rc == 0, out, exe
 
 
